@@ -11,6 +11,8 @@
 (*   equiv    a compile-time composition and the run-time composition of the same   *)
 (*            components with the same parameter values on the same system          *)
 (*   equivp   a class of runtime::preconditioner against the C++ type it names      *)
+(*   rebuilt  a typed amg after rebuild(2A) against a typed amg freshly built from   *)
+(*            2A with the same parameters (scaling keeps the transfer operators)    *)
 (*   equivb   block-valued backend: the as_scalar / direct branch of the run-time   *)
 (*            coarsening wrapper against the compile-time composition               *)
 (*   enum     operator<< / operator>> of a run-time enumeration, value by value     *)
@@ -69,6 +71,12 @@ Same(r, a, b) == /\ r["threw" \o a] = r["threw" \o b] /\ r["it" \o a] = r["it" \
                  /\ r["px_lo" \o a] = r["px_lo" \o b] /\ r["px_hi" \o a] = r["px_hi" \o b]
                  /\ r["bytes" \o a] = r["bytes" \o b]
                  /\ r["txt_lo" \o a] = r["txt_lo" \o b] /\ r["txt_hi" \o a] = r["txt_hi" \o b]
+\* the same object after amg::rebuild(A2): second solve and preconditioner action
+SameRebuilt(r, a, b) ==
+                 /\ r["rthrew" \o a] = r["rthrew" \o b] /\ r["rit" \o a] = r["rit" \o b]
+                 /\ r["rres_lo" \o a] = r["rres_lo" \o b] /\ r["rres_hi" \o a] = r["rres_hi" \o b]
+                 /\ r["rx_lo" \o a] = r["rx_lo" \o b] /\ r["rx_hi" \o a] = r["rx_hi" \o b]
+                 /\ r["rpx_lo" \o a] = r["rpx_lo" \o b] /\ r["rpx_hi" \o a] = r["rpx_hi" \o b]
 
 EnumClauses(r) ==
     LET wf == r.w \in WrapperIds
@@ -87,9 +95,14 @@ Clauses(r) ==
       [] r.k = "compile" -> << <<r.clause, r.ok>> >>
       [] r.k = "equiv"   -> << <<"runtime=compile-time", Same(r, "", "_r")>>,
                                <<"runtime-preconditioner=compile-time", Same(r, "", "_p")>>,
+                               <<"runtime=compile-time-after-rebuild", SameRebuilt(r, "", "_r") /\ SameRebuilt(r, "", "_p")>>,
                                <<"known-not-reported", r.rep = <<>> >> >>
-      [] r.k = "equivp"  -> << <<"preconditioner-class=type", Same(r, "_t", "_r")>> >>
+      [] r.k = "equivp"  -> << <<"preconditioner-class=type", Same(r, "_t", "_r")>>,
+                               <<"runtime=compile-time-after-rebuild", SameRebuilt(r, "_t", "_r")>> >>
+      [] r.k = "rebuilt" -> << <<"parameters-take-effect-after-rebuild",
+                                 ~r.threw /\ r.rpx_lo = r.fpx_lo /\ r.rpx_hi = r.fpx_hi>> >>
       [] r.k = "equivb"  -> << <<"block-runtime=compile-time", Same(r, "_t", "_r")>>,
+                               <<"runtime=compile-time-after-rebuild", SameRebuilt(r, "_t", "_r")>>,
                                <<"known-not-reported", r.rep = <<>> >> >>
       [] r.k = "enum"    -> EnumClauses(r)
       [] r.k = "badtype" -> << <<"bad-enum-throws", r.threw>> >>
